@@ -5,6 +5,7 @@ import absint
 import align
 import survive
 import loopstate
+import lenrun
 import c19
 import ir
 from report import Finding
@@ -243,4 +244,56 @@ def loop_state_rule(chk, rule, lib, name_re, floor_loops=1):
                                 "`%s` re-loads the state at [%s%+d] in every iteration of the loop at %s, the loop never writes it back, and `%s` (%s) stores the loop's register there afterwards: every iteration but the last is lost, so the result depends on how many blocks one call passes" % (ld.text.strip(), k[0].lower(), k[1], o.line_of(key[1], h), st_.text.strip(), o.line_of(key[1], st_.addr)),
                                 loc=o.line_of(key[1], ld.addr)))
     chk.extra.setdefault("loop_state", {})[rule] = {"functions_with_loops": n, "loops": nl}
+    return n
+
+
+def block_bounds(chk, rule, lib, mods, prefix, block_size=1024, data_param="input_data", count_param="num_blocks"):
+    """Length skeleton (lib/lenrun.py) of the assembly block functions: with 1..3 blocks every access through the
+    input argument lies within [0, blocks * block_size)."""
+    base = None
+    for M in mods.values():
+        G = M.functions.get(prefix + "_base")
+        if G is not None and not G.decl:
+            base = G
+    if base is None:
+        chk.broke("%s_base not found" % prefix)
+        return 0
+    dpos, cpos = base.arg_index(data_param), base.arg_index(count_param)
+    if dpos is None or cpos is None or max(dpos, cpos) >= 6:
+        chk.broke("%s_base: parameters %s / %s not found" % (prefix, data_param, count_param))
+        return 0
+    n = nacc = 0
+    for key, name in lib.entry_list:
+        if not re.match("^" + re.escape(prefix) + r"_(?!base$)\w+$", name) or name.endswith(("_mbinit", "_dispatch_init")):
+            continue
+        o = lib.by_name[key[0]]
+        if o.kind != "asm":
+            continue
+        f = lib.func(key)
+        n += 1
+        bad = None
+        why = None
+        judged = 0
+        for nb in (1, 2, 3):
+            entry = {}
+            for k, a in enumerate(base.args[:6]):
+                entry[ARGREGS[k]] = nb if k == cpos else ("p", "input" if k == dpos else (a.get("name") or "arg%d" % k), 0)
+            rr = lenrun.Machine(lib, f, entry).run()
+            if rr.stopped or not rr.returned:
+                why = why or rr.stopped
+                continue
+            judged += 1
+            for (i, tag, off, size, rw, masked) in rr.accesses:
+                if tag != "input":
+                    continue
+                nacc += 1
+                if not masked and (off < 0 or off + size > nb * block_size):
+                    bad = bad or (nb, i, off, size)
+        chk.obligation(rule, bad is None and judged > 0, key=(name, "bounds"), sample={"function": name, "block_counts_judged": judged})
+        if not judged:
+            chk.broke("%s: the length skeleton could not be followed (%s)" % (name, why))
+        if bad:
+            nb, i, off, size = bad
+            chk.finding(Finding(rule, o.name, name, "block-bounds", "with %d block(s) `%s` reads bytes %d..%d of the input, which has %d bytes" % (nb, i.text.strip(), off, off + size - 1, nb * block_size), loc=o.line_of(key[1], i.addr)))
+    chk.extra.setdefault("block_bounds", {})[prefix] = {"functions": n, "input_accesses_checked": nacc}
     return n
